@@ -5,9 +5,14 @@
 //! account snapshots that carry balances and order reports together (`acct`).
 use barter::engine::state::trading::TradingState;
 use barter_data::{
-    books::Level,
+    books::{Level, OrderBook},
     event::{DataKind, MarketEvent},
-    subscription::{book::OrderBookL1, trade::PublicTrade},
+    subscription::{
+        book::{OrderBookEvent, OrderBookL1},
+        candle::Candle,
+        liquidation::Liquidation,
+        trade::PublicTrade,
+    },
 };
 use barter_execution::{
     AccountEvent, AccountEventKind, AccountSnapshot, InstrumentAccountSnapshot,
@@ -62,8 +67,17 @@ fn observe(engine: &TestEngine, maps: &Maps, lines: &mut Vec<String>) {
                 fmt_dec(a.price),
                 fmt_dec(a.amount)
             ),
+            // ONE side absent (a legal top of book: nothing resting on the other side): the absent side is
+            // written `-1,-1`, exactly as the op line writes it
+            (b, a) if b.is_some() != a.is_some() => {
+                let side = |l: &Option<Level>| match l {
+                    Some(l) => format!("{},{}", fmt_dec(l.price), fmt_dec(l.amount)),
+                    None => "-1,-1".to_string(),
+                };
+                format!("l1{i} {} {},{}", (d.l1.last_update_time - t0()).num_milliseconds(), side(b), side(a))
+            }
             // both sides absent: the never-set default book (epoch timestamp) or a delivered EMPTY book
-            _ if d.l1.last_update_time > t0() - chrono::Duration::days(1) => {
+            _ if d.l1.last_update_time != chrono::DateTime::<chrono::Utc>::default() => {
                 format!("l1{i} {} empty", (d.l1.last_update_time - t0()).num_milliseconds())
             }
             _ => format!("l1{i} none"),
@@ -104,6 +118,15 @@ fn order_report(idx: InstrumentIndex, cid: &str, state: OrderState) -> Order {
         kind: OrderKind::Limit,
         time_in_force: TimeInForce::GoodUntilCancelled { post_only: false },
         state,
+    }
+}
+
+/// one side of an `l1` op: price and amount, or `-1 -1` for an absent side
+fn l1_side(p: &str, a: &str) -> Option<Level> {
+    if p == "-1" && a == "-1" {
+        None
+    } else {
+        Some(Level::new(parse_dec(p), parse_dec(a)))
     }
 }
 
@@ -250,7 +273,7 @@ fn run() {
                         }),
                     });
                 }
-                "trade" | "l1" | "l1e" | "ord" | "cancel" | "ordx" => {
+                "trade" | "l1" | "l1e" | "ord" | "cancel" | "ordx" | "mkt" => {
                     let i: usize = op[1].parse().unwrap();
                     if i >= n {
                         lines.push("panic".into());
@@ -287,12 +310,58 @@ fn run() {
                                 time_received: time_ms(10_000 + op_index as i64),
                                 exchange: EXCHANGES[0],
                                 instrument: idx,
+                                // optional: `B|S amount` (default: a buy of 1)
                                 kind: DataKind::Trade(PublicTrade {
                                     id: "t".into(),
                                     price: op[3].parse::<f64>().unwrap(),
-                                    amount: 1.0,
-                                    side: Side::Buy,
+                                    amount: op.get(5).map(|a| a.parse::<f64>().unwrap()).unwrap_or(1.0),
+                                    side: match op.get(4).map(|s| s.as_str()) {
+                                        None | Some("B") => Side::Buy,
+                                        Some("S") => Side::Sell,
+                                        Some(other) => panic!("bad trade side {other}"),
+                                    },
                                 }),
+                            });
+                        }
+                        "mkt" => {
+                            // a market event of a kind that feeds NO register of this property: candle,
+                            // liquidation, L2 book snapshot / update, all carrying the price `op[4]`
+                            let t = time_ms(op[2].parse().unwrap());
+                            let p = op[4].parse::<f64>().unwrap();
+                            let book = || {
+                                OrderBook::new(
+                                    7,
+                                    Some(t),
+                                    vec![Level::new(parse_dec(&op[4]), Decimal::ONE)],
+                                    vec![Level::new(parse_dec(&op[4]) + Decimal::ONE, Decimal::ONE)],
+                                )
+                            };
+                            let kind = match op[3].as_str() {
+                                "candle" => DataKind::Candle(Candle {
+                                    close_time: t,
+                                    open: p,
+                                    high: p,
+                                    low: p,
+                                    close: p,
+                                    volume: 3.0,
+                                    trade_count: 2,
+                                }),
+                                "liq" => DataKind::Liquidation(Liquidation {
+                                    side: Side::Sell,
+                                    price: p,
+                                    quantity: 1.0,
+                                    time: t,
+                                }),
+                                "booksnap" => DataKind::OrderBook(OrderBookEvent::Snapshot(book())),
+                                "bookupd" => DataKind::OrderBook(OrderBookEvent::Update(book())),
+                                other => panic!("bad mkt kind {other}"),
+                            };
+                            engine.state.update_from_market(&MarketEvent {
+                                time_exchange: t,
+                                time_received: time_ms(10_000 + op_index as i64),
+                                exchange: EXCHANGES[0],
+                                instrument: idx,
+                                kind,
                             });
                         }
                         "l1e" => {
@@ -310,6 +379,11 @@ fn run() {
                                 }),
                             });
                         }
+                        // both sides written absent: not an `l1` op (an empty book is `l1e`)
+                        "l1" if l1_side(&op[4], &op[5]).is_none() && l1_side(&op[6], &op[7]).is_none() => {
+                            lines.push("bad-op".into());
+                            continue;
+                        }
                         "l1" => {
                             let te = time_ms(op[2].parse().unwrap());
                             let tl = time_ms(op[3].parse().unwrap());
@@ -320,8 +394,9 @@ fn run() {
                                 instrument: idx,
                                 kind: DataKind::OrderBookL1(OrderBookL1 {
                                     last_update_time: tl,
-                                    best_bid: Some(Level::new(parse_dec(&op[4]), parse_dec(&op[5]))),
-                                    best_ask: Some(Level::new(parse_dec(&op[6]), parse_dec(&op[7]))),
+                                    // a side written `-1 -1` is ABSENT (one-sided top of book)
+                                    best_bid: l1_side(&op[4], &op[5]),
+                                    best_ask: l1_side(&op[6], &op[7]),
                                 }),
                             });
                         }
@@ -485,6 +560,161 @@ fn gen_case(rng: &mut Rng, out: &mut Out, tier: &str) {
     }
 }
 
+
+/// INPUT-DOMAIN family (separately seeded; the random cases above stay as they are). Same shape as
+/// `gen_case` - a pool of messages delivered as a permutation with repetition - but every field is drawn
+/// from the whole domain of its Rust type at the entry points rather than from "typical" values:
+/// * exchange times from a per-case palette that includes 0, NEGATIVE offsets, ties, neighbours across a
+///   second boundary (999/1000/1001 ms) and gaps of hours and days (12 h crosses midnight from t0 = 12:26:40Z,
+///   so the later instant has the SMALLER time of day);
+/// * balances: zero, free = total, free > total, negative, 1e-8, 1e12 next to distinguishable ordinary values;
+/// * public trades: price 0 / 1e-8 / 1e12 / negative / 0.1 / six decimals, side Buy AND Sell, amount 0 / 2.5;
+/// * top of book: both sides, ONE side only (bid-only / ask-only, written `-1 -1`), empty; amounts 0, prices 1e-8 / 1e12;
+/// * open-order reports with filled in {0, q/2, q (nothing left: the code treats it as a terminal report), q+2 (over-fill)};
+/// * market events of the kinds that feed no register (candle, liquidation, L2 snapshot / update: op `mkt`);
+/// * EMPTY full account snapshots (`full` / `acct` without items); up to three instruments.
+fn gen_dom_case(rng: &mut Rng, out: &mut Out) {
+    let n = rng.range(1, 3) as usize;
+    out.line(format!("init {n}"));
+    const PALETTES: [&[i64]; 7] = [
+        &[0, 1, 2],
+        &[-3, -1, 0, 2],
+        &[999, 1000, 1001],
+        &[1, 43_200_000, 86_400_000],
+        &[-86_400_000, 0, 3_600_000, 3_600_001],
+        &[5, 5, 6],
+        &[1, 2, 3, 4, 5, 6, 7, 8],
+    ];
+    let times: &[i64] = PALETTES[rng.below(PALETTES.len() as u64) as usize];
+    const BALS: [(&str, &str); 9] = [
+        ("0", "0"),
+        ("7", "7"),
+        ("7", "8"),
+        ("-2.5", "-2.5"),
+        ("3", "-1"),
+        ("0.00000001", "0"),
+        ("1000000000000", "500000000000.5"),
+        ("0", "0.00000001"),
+        ("12.345678", "0.000001"),
+    ];
+    const PRICES: [&str; 8] = ["0", "0.00000001", "1000000000000", "-5", "0.1", "123456.789", "0.000123", "99999999.99"];
+    let mut uid = 0i64;
+    let mut pool: Vec<String> = vec![];
+    let npool = rng.range(2, 9);
+    let bal = |rng: &mut Rng, uid: i64| -> (String, String) {
+        if rng.chance(60) {
+            let (t, f) = *rng.pick(&BALS);
+            (t.to_string(), f.to_string())
+        } else {
+            ((100 + uid).to_string(), (50 + uid).to_string())
+        }
+    };
+    for _ in 0..npool {
+        uid += 1;
+        let t = *rng.pick(times);
+        match rng.below(100) {
+            0..=21 => {
+                let a = rng.below(n as u64 + 1);
+                let (tot, free) = bal(rng, uid);
+                pool.push(format!("bal {a} {t} {tot} {free}"));
+            }
+            22..=31 => {
+                // 0-3 items: an EMPTY full snapshot is legal
+                let k = rng.range(0, 3);
+                let mut s = String::from("full");
+                for _ in 0..k {
+                    uid += 1;
+                    let a = rng.below(n as u64 + 1);
+                    let t = *rng.pick(times);
+                    let (tot, free) = bal(rng, uid);
+                    s += &format!(" {a} {t} {tot} {free}");
+                }
+                pool.push(s);
+            }
+            32..=49 => {
+                let i = rng.below(n as u64);
+                let p = if rng.chance(60) { rng.pick(&PRICES).to_string() } else { format!("{}.25", 100 + uid) };
+                let side = *rng.pick(&["B", "S"]);
+                let amount = *rng.pick(&["0", "1", "2.5", "0.00000001"]);
+                pool.push(format!("trade {i} {t} {p} {side} {amount}"));
+            }
+            50..=69 => {
+                let i = rng.below(n as u64);
+                let px = |rng: &mut Rng, base: i64| -> String {
+                    match rng.below(10) {
+                        0 => "0.00000001".to_string(),
+                        1 => "1000000000000".to_string(),
+                        _ => (base + uid).to_string(),
+                    }
+                };
+                let am = |rng: &mut Rng| -> &'static str { *rng.pick(&["0", "1", "2", "0.00000001", "1000000000"]) };
+                match rng.below(10) {
+                    0 | 1 => pool.push(format!("l1e {i} {t} {t}")),
+                    2..=4 => pool.push(format!("l1 {i} {t} {t} {} {} -1 -1", px(rng, 100), am(rng))),
+                    5..=7 => pool.push(format!("l1 {i} {t} {t} -1 -1 {} {}", px(rng, 200), am(rng))),
+                    _ => pool.push(format!("l1 {i} {t} {t} {} {} {} {}", px(rng, 100), am(rng), px(rng, 200), am(rng))),
+                }
+            }
+            70..=83 => {
+                let i = rng.below(n as u64);
+                let c = rng.range(1, 2);
+                let filled = *rng.pick(&["0", "5", "5", "10", "10", "12", "10.0", "9.99999999"]);
+                pool.push(format!("ord {i} {c} {uid} {t} {filled}"));
+            }
+            84..=86 => {
+                let i = rng.below(n as u64);
+                let c = rng.range(1, 2);
+                let kind = *rng.pick(&["Cancelled", "Filled", "Expired", "Failed"]);
+                pool.push(format!("ordx {i} {c} {kind} {t}"));
+            }
+            87..=91 => {
+                // full account snapshot, 0-3 items (EMPTY included), open reports incl. fully filled ones
+                let k = rng.range(0, 3);
+                let mut s = String::from("acct");
+                for _ in 0..k {
+                    uid += 1;
+                    let t = *rng.pick(times);
+                    match rng.below(3) {
+                        0 => {
+                            let a = rng.below(n as u64 + 1);
+                            let (tot, free) = bal(rng, uid);
+                            s += &format!(" B {a} {t} {tot} {free}");
+                        }
+                        1 => {
+                            let i = rng.below(n as u64);
+                            let c = rng.range(1, 2);
+                            let filled = *rng.pick(&["0", "5", "10", "12"]);
+                            s += &format!(" O {i} {c} {uid} {t} {filled}");
+                        }
+                        _ => {
+                            let i = rng.below(n as u64);
+                            let c = rng.range(1, 2);
+                            let kind = *rng.pick(&["Cancelled", "Filled", "Expired", "Failed"]);
+                            s += &format!(" X {i} {c} {kind} {t}");
+                        }
+                    }
+                }
+                pool.push(s);
+            }
+            92..=96 => {
+                let i = rng.below(n as u64);
+                let kind = *rng.pick(&["candle", "liq", "booksnap", "bookupd"]);
+                let p = *rng.pick(&["0.5", "77", "1000000000000", "0.00000001"]);
+                pool.push(format!("mkt {i} {t} {kind} {p}"));
+            }
+            _ => {
+                let i = rng.below(n as u64);
+                let c = rng.range(1, 2);
+                pool.push(format!("cancel {i} {c}"));
+            }
+        }
+    }
+    let deliveries = rng.range(npool, npool * 2 + 2);
+    for _ in 0..deliveries {
+        out.line(rng.pick(&pool).clone());
+    }
+}
+
 fn generate(seed: u64, n_cases: usize, tier: &str) {
     let mut out = Out::new();
     let mut rng = Rng::new(seed);
@@ -526,6 +756,13 @@ fn generate(seed: u64, n_cases: usize, tier: &str) {
         id += 1;
         out.case(format!("r{id}"));
         gen_case(&mut rng, &mut out, tier);
+    }
+    // input-domain family: a quarter as many cases again, from its own PRNG stream
+    let mut drng = Rng::new(seed ^ 0x0D09_D0A1_5EED);
+    for _ in 0..n_cases.div_ceil(4) {
+        id += 1;
+        out.case(format!("d{id}"));
+        gen_dom_case(&mut drng, &mut out);
     }
     out.flush();
 }
